@@ -27,7 +27,8 @@ CONTRACT = {
 
 
 def sql_family(prog, sites, f):
-    return [s for s in sites if s.fn.path == f.path or s.fn.root == f.path]
+    fam = set(g.path for g in prog.family(f)) if prog is not None else {f.path}
+    return [s for s in sites if s.fn.path in fam or s.fn.root == f.path]
 
 
 def clause_selectors(prog, rep, sites, as_strs, only=None):
@@ -162,7 +163,7 @@ def clause_stored_verbatim(prog, rep, sites, rule, only_tables, floor=1):
         if s.fn.root and ("snapshot" in s.fn.root or "restore" in s.fn.root):
             continue
         root = prog.fns.get(s.fn.root, s.fn)
-        scope = set(q for q in prog.fns if q == root.path or q.startswith(root.path + "::{closure"))
+        scope = set(g.path for g in prog.family(root))
         for l in c09.bound_param_locals(s.fn, s):
             n += 1
             og = A.origins(prog, s.fn, l, scope=scope, max_frames=2)
